@@ -46,6 +46,35 @@ theorem gen_prog_is_step (H : Text → Hash) (H0 h0 : Hash) (C : CacheImpl σ Te
     · rw [step_badVersion H C s q v h hv]
       simp [runProg, GqlgenVerif.Gen.ApqProg.prog, interp, evalCond, extVersion, classify, hv]
 
+/-- The regenerated body never reaches `Cache.Add` with an empty `rawParams.Query` (it never registers `hash ↦ ""`,
+in particular not on a lookup miss) and never returns an error the classification does not know: `interp` is
+defined (`some`) on every request, cache and state. -/
+theorem gen_never_registers_empty_text (H : Text → Hash) (H0 h0 : Hash) (C : CacheImpl σ Text Hash) (s : σ)
+    (r : Req Text Hash) : (runProg H H0 h0 C GqlgenVerif.Gen.ApqProg.prog s r).isSome = true := by
+  rw [gen_prog_is_step]; rfl
+
+/-- A hash-only request makes the regenerated body call `Cache.Get` exactly once and `Cache.Add` never; answered
+PersistedQueryNotFound, the cache is in the state that `Get` left (nothing was written back). -/
+theorem gen_hash_only_registers_nothing (H : Text → Hash) (H0 h0 : Hash) (C : CacheImpl σ Text Hash) (s : σ)
+    (v : Int) (h : Hash) (x : StepRes σ Text Hash)
+    (hx : runProg H H0 h0 C GqlgenVerif.Gen.ApqProg.prog s ⟨none, .decoded v h⟩ = some x) :
+    addsOf x.ops = [] ∧ (x.out = .notFound → x.state = (C.get s h).2 ∧ x.ops = [.get h none]) := by
+  rw [gen_prog_is_step] at hx
+  injection hx with hx
+  subst hx
+  by_cases hv : v = 1
+  · subst hv
+    cases hg : (C.get s h).1 with
+    | none => rw [step_miss H C s h hg]; simp [addsOf]
+    | some t => rw [step_hit H C s h t hg]; simp [addsOf]
+  · rw [step_badVersion H C s none v h hv]; simp [addsOf]
+
+/-- why `interp` must not treat `Add` with an empty query as "no call": a body that writes the looked-up entry back
+BEFORE the `!ok` guard has no meaning in the model on a miss (it registers the empty text) -/
+example : runProg (fun t : Nat => t % 10) 0 0 mapCache
+    (.ite .queryEmpty (.get (.add (.ite .cacheMiss (.ret (.err "PersistedQueryNotFound" (some "PERSISTED_QUERY_NOT_FOUND")))
+      (.ret .pass)))) (.ret .pass)) mapEmpty ⟨none, .decoded 1 3⟩ = none := by decide
+
 -- non-vacuity: the regenerated body run on a registration followed by a lookup, against MapCache
 example : (runProg (fun t : Nat => t % 10) 0 0 mapCache GqlgenVerif.Gen.ApqProg.prog mapEmpty
     ⟨some 13, .decoded 1 3⟩).map (·.out) = some (.run (some 13)) := by decide
